@@ -184,6 +184,7 @@ def run(pid: str, tier: str, seed: int) -> int:
     violations = []      # (case, obs, reply)
     disagreements = []   # (case, obs, reply)
     known_hit = {}
+    witness_gone = []    # listed findings whose witness case now satisfies the property (fixed upstream?)
     errors = []
     budget = getattr(prop, "BUDGET_S", {"quick": 45, "thorough": 600})[tier]
     exhaustive = False
@@ -230,12 +231,28 @@ def run(pid: str, tier: str, seed: int) -> int:
         if corpus:
             consume(corpus)
             counts["corpus"] = len(corpus)
+        # witness cases of the listed known findings run on every check, so each listed finding is
+        # re-confirmed (and printed) deterministically rather than only when the sampler happens to hit it
+        for kid, e in sorted(listed_known.items()):
+            w = e.get("witness")
+            if not isinstance(w, dict):
+                continue
+            try:
+                obs_w, res_w = ev.evaluate([w])
+                cls_w = classify(res_w[0], listed_known)
+            except Exception:  # noqa: BLE001
+                cls_w = "error"
+            counts["witness_" + cls_w.split(":")[0]] += 1
+            if cls_w.startswith("known:"):
+                known_hit.setdefault(cls_w[6:], (w, obs_w[0], res_w[0]))
+            elif cls_w == "pass":
+                witness_gone.append(kid)
         gen = prop.gen_cases(tier, rng)
         batch = []
         finished = True
         for c in gen:
             batch.append(c)
-            if len(batch) >= BATCH:
+            if len(batch) >= (BATCH if tier == "thorough" else BATCH // 2):
                 consume(batch)
                 batch = []
                 if time.time() - t0 > budget or len(violations) > 20 or len(errors) > 5:
@@ -344,6 +361,7 @@ def run(pid: str, tier: str, seed: int) -> int:
             "samples": samples or [{"note": "no passing sample recorded"}],
             "disagreements_checked": len(disagreements),
             "known_findings_hit": sorted(known_hit),
+            "known_findings_whose_witness_now_passes": witness_gone,
             "verdict_counts": {k: v for k, v in counts.items()},
             "distribution": {k: dict(v.most_common(12)) for k, v in dist.items()},
             "replays": replay_paths,
